@@ -389,15 +389,226 @@ Proof.
     intros y Hy. apply IH; auto.
 Qed.
 
+(* ------------------------------------------------------------------ 6b. parameter order
+   The tree holds the parameters of a line in the order the client sent them (and the EXDATE/RDATE clean-up appends
+   VALUE / TZID at the end); print_cl sorts them, so the next read sees the SORTED tree.  The three stages are blind to
+   the order of parameters with distinct names: stage-normal form carries over to the sorted tree. *)
+Definition sort_cl (l : cl) : cl := mkCl (cl_group l) (cl_name l) (sort_params (cl_params l)) (cl_value l).
+Fixpoint sort_node (x : node) : node :=
+  match x with L l => L (sort_cl l) | C n ch => C n (map sort_node ch) end.
+
+Fixpoint nodup_keysb (ps : list (pystr * list pystr)) : bool :=
+  match ps with
+  | [] => true
+  | a :: r => match lookup (fst a) r with None => true | Some _ => false end && nodup_keysb r
+  end.
+Fixpoint ndb (x : node) : bool :=
+  match x with L l => nodup_keysb (cl_params l) | C _ ch => forallb ndb ch end.
+(* sorting the printed parameters again changes nothing (true of every list with distinct names; checked) *)
+Fixpoint sorted_after (x : node) : bool :=
+  match x with L l => sortedb (sort_params (cl_params l)) | C _ ch => forallb sorted_after ch end.
+
+Lemma lookup_cons : forall k h t, lookup k (h :: t) = if eqs (fst h) k then Some (snd h) else lookup k t.
+Proof. intros k h t. unfold lookup. cbn [find]. destruct (eqs (fst h) k); reflexivity. Qed.
+
+Lemma lookup_insert_same : forall kv l, lookup (fst kv) l = None -> lookup (fst kv) (insert_param kv l) = Some (snd kv).
+Proof.
+  intros kv l. induction l as [|h t IH]; intros H.
+  - cbn [insert_param]. rewrite lookup_cons, eqs_refl. reflexivity.
+  - cbn [insert_param]. rewrite lookup_cons in H. destruct (eqs (fst h) (fst kv)) eqn:E; [discriminate|].
+    destruct (str_leb (fst h) (fst kv)).
+    + rewrite lookup_cons, E. apply IH. exact H.
+    + rewrite lookup_cons, eqs_refl. reflexivity.
+Qed.
+
+Lemma lookup_insert_other : forall kv k l, eqs (fst kv) k = false -> lookup k (insert_param kv l) = lookup k l.
+Proof.
+  intros kv k l E. induction l as [|h t IH].
+  - cbn [insert_param]. rewrite lookup_cons, E. reflexivity.
+  - cbn [insert_param]. destruct (str_leb (fst h) (fst kv)).
+    + rewrite !lookup_cons. rewrite IH. reflexivity.
+    + rewrite lookup_cons, E. reflexivity.
+Qed.
+
+Lemma lookup_sort : forall ps, nodup_keysb ps = true -> forall k, lookup k (sort_params ps) = lookup k ps.
+Proof.
+  induction ps as [|a r IH]; intros H k; [reflexivity|].
+  cbn [nodup_keysb] in H. apply andb_prop in H. destruct H as [H1 H2].
+  unfold sort_params. cbn [fold_right]. fold (sort_params r).
+  destruct (eqs (fst a) k) eqn:E.
+  - apply eqs_eq in E. subst k. rewrite lookup_insert_same.
+    + rewrite lookup_cons, eqs_refl. reflexivity.
+    + rewrite IH by exact H2. destruct (lookup (fst a) r); [discriminate|reflexivity].
+  - rewrite lookup_insert_other by exact E. rewrite lookup_cons, E. apply IH. exact H2.
+Qed.
+
+Lemma vpt_sort : forall l, nodup_keysb (cl_params l) = true -> value_param_type (sort_cl l) = value_param_type l.
+Proof. intros l H. rewrite !vpt_lookup. unfold sort_cl. cbn [cl_params]. rewrite lookup_sort by exact H. reflexivity. Qed.
+
+Lemma dtstart_type_sort : forall l, nodup_keysb (cl_params l) = true -> dtstart_type (sort_cl l) = dtstart_type l.
+Proof. intros l H. unfold dtstart_type. rewrite vpt_sort by exact H. reflexivity. Qed.
+
+Lemma value_class_sort : forall c l, nodup_keysb (cl_params l) = true -> value_class c (sort_cl l) = value_class c l.
+Proof.
+  intros c l H. unfold value_class, is_base64. rewrite !param_lookup. unfold sort_cl. cbn [cl_params cl_name].
+  rewrite lookup_sort by exact H. reflexivity.
+Qed.
+
+Lemma canon_value_sort : forall c l, nodup_keysb (cl_params l) = true -> canon_value c (sort_cl l) = sort_cl (canon_value c l).
+Proof.
+  intros c l H. unfold canon_value. rewrite value_class_sort by exact H. destruct (value_class c l); reflexivity.
+Qed.
+
+Lemma canon_values_sort : forall x c, ndb x = true -> canon_values c (sort_node x) = sort_node (canon_values c x).
+Proof.
+  induction x as [l | n ch IH] using TreeProofs.node_ind'; intros c H.
+  - cbn [sort_node canon_values]. f_equal. apply canon_value_sort. exact H.
+  - cbn [sort_node]. rewrite !canon_values_C. cbn [sort_node]. f_equal. rewrite !map_map.
+    cbn [ndb] in H. rewrite forallb_forall in H. rewrite Forall_forall in IH.
+    apply map_ext_in. intros y Hy. apply IH; auto.
+Qed.
+
+(* ordering commutes with any map that keeps keys and kinds *)
+Section OrderMap.
+  Variable f : node -> node.
+  Hypothesis f_key : forall x, key_of (f x) = key_of x.
+  Hypothesis f_comp : forall x, is_comp (f x) = is_comp x.
+
+  Lemma insert_node_map : forall x l, insert_node (f x) (map f l) = map f (insert_node x l).
+  Proof.
+    intros x l. induction l as [|h t IH]; [reflexivity|]. cbn [map insert_node]. rewrite !f_key.
+    destruct (str_ltb (key_of h) (key_of x)); [cbn [map]; rewrite IH|]; reflexivity.
+  Qed.
+  Lemma sort_nodes_map : forall l, sort_nodes (map f l) = map f (sort_nodes l).
+  Proof.
+    induction l as [|h t IH]; [reflexivity|]. unfold sort_nodes in *. cbn [map fold_right]. rewrite IH. apply insert_node_map.
+  Qed.
+  Lemma with_key_map : forall k l, with_key k (map f l) = map f (with_key k l).
+  Proof. intros k l. unfold with_key. apply filter_map_pres. intros x. rewrite f_key. reflexivity. Qed.
+  Lemma without_keys_map : forall ks l, without_keys ks (map f l) = map f (without_keys ks l).
+  Proof. intros ks l. unfold without_keys. apply filter_map_pres. intros x. rewrite f_key. reflexivity. Qed.
+  Lemma order_default_map : forall c l, order_default c (map f l) = map f (order_default c l).
+  Proof.
+    intros c l. unfold order_default. rewrite map_app. rewrite without_keys_map, sort_nodes_map. f_equal.
+    rewrite concat_map. f_equal. rewrite map_map. apply map_ext. intros k. apply with_key_map.
+  Qed.
+  Lemma order_children_map : forall c l, order_children c (map f l) = map f (order_children c l).
+  Proof.
+    intros c l. unfold order_children, order_vcalendar.
+    match goal with |- (if ?b then _ else _) = _ => destruct b end; [|apply order_default_map].
+    rewrite map_app. rewrite <- !order_default_map. f_equal; f_equal; apply filter_map_pres; intros x; rewrite f_comp; reflexivity.
+  Qed.
+End OrderMap.
+
+Lemma sort_node_key : forall x, key_of (sort_node x) = key_of x.
+Proof. intros [l|n ch]; reflexivity. Qed.
+Lemma sort_node_comp : forall x, is_comp (sort_node x) = is_comp x.
+Proof. intros [l|n ch]; reflexivity. Qed.
+
+Lemma canon_node_sort : forall x, canon_node (sort_node x) = sort_node (canon_node x).
+Proof.
+  induction x as [l | n ch IH] using TreeProofs.node_ind'; [reflexivity|].
+  cbn [sort_node]. rewrite !canon_node_C. cbn [sort_node]. f_equal.
+  rewrite <- (order_children_map sort_node sort_node_key sort_node_comp). f_equal.
+  rewrite !map_map. apply map_ext_in. intros y Hy. rewrite Forall_forall in IH. apply IH. exact Hy.
+Qed.
+
+(* clean-ups *)
+Lemma lines_named_sort : forall k ch, lines_named k (map sort_node ch) = map sort_cl (lines_named k ch).
+Proof.
+  intros k ch. induction ch as [|x r IH]; [reflexivity|]. cbn [map]. destruct x as [l|n s]; cbn [sort_node].
+  - rewrite !lines_named_cons_L. rewrite map_app, IH. change (cl_name (sort_cl l)) with (cl_name l).
+    destruct (eqs (cl_name l) k); reflexivity.
+  - rewrite !lines_named_cons_C. exact IH.
+Qed.
+
+Lemma fdl_sort : forall ref ref' rt l, nodup_keysb (cl_params l) = true ->
+  dtstart_type ref = rt -> rt <> TOther -> dtstart_line_consistent ref = true ->
+  fix_dates_line ref rt l = Some l -> fix_dates_line ref' rt (sort_cl l) = Some (sort_cl l).
+Proof.
+  intros ref ref' rt l Hn Ht Hr Hc H. rewrite fix_dates_line_unfold in *. rewrite vpt_sort by exact Hn.
+  change (cl_value (sort_cl l)) with (cl_value l).
+  destruct (nonempty (cl_value l)); [|reflexivity].
+  destruct (negb (forallb (multidate_ok (value_param_type l)) (split_on COMMA (cl_value l)))); [discriminate|].
+  destruct (vtype_eqb (value_param_type l) rt) eqn:E; [reflexivity|]. exfalso.
+  injection H as H.
+  assert (T : value_param_type l = rt) by (rewrite <- H; apply conv_type; assumption).
+  rewrite T, vtype_eqb_refl in E. discriminate.
+Qed.
+
+Lemma In_L_ndb : forall l ch, forallb ndb ch = true -> In (L l) ch -> nodup_keysb (cl_params l) = true.
+Proof. intros l ch H Hi. rewrite forallb_forall in H. apply (H (L l) Hi). Qed.
+
+Lemma comp_fixed_sort : forall sub, forallb ndb sub = true -> comp_dtstart_consistent sub = true ->
+  fix_dates (fix_zero_duration sub) = Some sub ->
+  fix_dates (fix_zero_duration (map sort_node sub)) = Some (map sort_node sub).
+Proof.
+  intros sub Hn Hc H.
+  assert (Hz : zero_duration_applies sub = false).
+  { rewrite (zero_duration_applies_fix_dates _ _ H). apply zero_duration_applies_fixed. }
+  rewrite (fix_zero_duration_only _ Hz) in H.
+  assert (Hz2 : zero_duration_applies (map sort_node sub) = false).
+  { rewrite <- Hz. unfold zero_duration_applies. rewrite !lines_named_sort.
+    destruct (lines_named s_DTEND sub); destruct (lines_named s_DURATION sub); reflexivity. }
+  rewrite (fix_zero_duration_only _ Hz2).
+  unfold fix_dates in *. unfold comp_dtstart_consistent in Hc. rewrite lines_named_sort.
+  destruct (lines_named s_DTSTART sub) as [|ref r] eqn:ED; [reflexivity|]. cbn [map].
+  assert (Hnr : nodup_keysb (cl_params ref) = true).
+  { apply (In_L_ndb ref sub Hn). apply (In_lines_named s_DTSTART). rewrite ED. left. reflexivity. }
+  rewrite dtstart_type_sort by exact Hnr.
+  assert (G : forall rt, dtstart_type ref = rt -> rt <> TOther -> fix_dates_children ref rt sub = Some sub ->
+                         fix_dates_children (sort_cl ref) rt (map sort_node sub) = Some (map sort_node sub)).
+  { intros rt Ht Hr Hf. apply fdc_fixed_bwd. apply fdc_fixed_fwd in Hf. rewrite Forall_forall in *.
+    intros x' Hx'. apply in_map_iff in Hx'. destruct Hx' as [x [<- Hx]]. specialize (Hf x Hx).
+    destruct x as [l|n s]; [|exact I]. cbn [sort_node fdl_ok] in *. change (cl_name (sort_cl l)) with (cl_name l).
+    destruct (eqs (cl_name l) s_EXDATE || eqs (cl_name l) s_RDATE); [|exact I].
+    apply (fdl_sort ref); try assumption. apply (In_L_ndb l sub Hn Hx). }
+  destruct (dtstart_type ref) eqn:ET; try discriminate; apply G; try reflexivity; try discriminate; exact H.
+Qed.
+
+Lemma sanitize_sort_fixed : forall y, ndb y = true -> dtstart_consistent y = true ->
+  sanitize y = Some y -> sanitize (sort_node y) = Some (sort_node y).
+Proof.
+  intros [l|n ch] Hn Hd H; [reflexivity|]. cbn [sort_node]. rewrite sanitize_unfold in *. unfold dtstart_consistent in Hd.
+  destruct (eqs n s_VCALENDAR); [|reflexivity]. cbn [negb orb] in Hd.
+  destruct (sanitize_children ch) as [ch'|] eqn:E; [|discriminate]. injection H as H. subst ch'.
+  rewrite sc_fixed_bwd; [reflexivity|]. apply sc_fixed_fwd in E. cbn [ndb] in Hn.
+  unfold children_dtstart_consistent in Hd. rewrite forallb_forall in Hn, Hd. rewrite Forall_forall in *.
+  intros x' Hx'. apply in_map_iff in Hx'. destruct Hx' as [x [<- Hx]].
+  specialize (E x Hx). specialize (Hn x Hx). specialize (Hd x Hx).
+  destruct x as [l|m sub]; [exact I|]. cbn [sort_node sc_ok] in *.
+  destruct (is_main_component m); [|exact I]. cbn [negb orb] in Hd. apply comp_fixed_sort; assumption.
+Qed.
+
+(* printing ignores the order of the parameters *)
+Lemma print_cl_sort : forall l, sortedb (sort_params (cl_params l)) = true -> print_cl (sort_cl l) = print_cl l.
+Proof.
+  intros l H. unfold print_cl, sort_cl. cbn [cl_group cl_name cl_params cl_value].
+  rewrite (LinesProofs.sort_params_sorted (sort_params (cl_params l))); [reflexivity|]. apply sortedb_sound. exact H.
+Qed.
+
+Lemma print_node_sort : forall x comp, sorted_after x = true -> print_node comp (sort_node x) = print_node comp x.
+Proof.
+  induction x as [l | n ch IH] using TreeProofs.node_ind'; intros comp H.
+  - cbn [sort_node print_node]. unfold fold_line_in. change (cl_name (sort_cl l)) with (cl_name l).
+    rewrite print_cl_sort by exact H. reflexivity.
+  - cbn [sort_node print_node]. f_equal. f_equal. cbn [sorted_after] in H.
+    induction ch as [|y r IHr]; [reflexivity|]. cbn [map]. inversion IH as [|? ? Hy Hrest]; subst.
+    cbn [forallb] in H. apply andb_prop in H. destruct H as [Ha Hb]. f_equal; [apply Hy; exact Ha|]. apply IHr; assumption.
+Qed.
+
 (* what remains to be CHECKED on the stored object (computable; observed on every generated object by checks/C14.py):
-   one component, well-formed lines with sorted parameters, no vCard PHOTO, clean-up-free text, not quoted-printable,
-   outside the known class C14:fold-ws *)
+   parameter names distinct within a line; and, on the tree with sorted parameters -- the one the next read builds --:
+   one component, well-formed lines, no vCard PHOTO, clean-up-free text, not quoted-printable, outside the known
+   class C14:fold-ws; the reference DTSTARTs still consistent *)
 Definition out_okb (z : node) : bool :=
+  let z' := sort_node z in
   match z with C _ _ => true | L _ => false end
-  && wf_nodeb z && forallb wf_clb (flatten z) && folds_normallyb [] z
-  && eqs (read_cleanup (print_node [] z)) (print_node [] z)
-  && forallb (fun l => negb (mentions_qp (print_cl l))) (flatten z)
-  && forallb (fun p => negb (ws_only_line p)) (phys_lines (print_node [] z)).
+  && ndb z && sorted_after z && dtstart_consistent z
+  && wf_nodeb z' && forallb wf_clb (flatten z') && folds_normallyb [] z'
+  && eqs (read_cleanup (print_node [] z')) (print_node [] z')
+  && forallb (fun l => negb (mentions_qp (print_cl l))) (flatten z')
+  && forallb (fun p => negb (ws_only_line p)) (phys_lines (print_node [] z')).
 
 (* the side condition of the composition theorem, a predicate of the uploaded text (true when the upload is refused) *)
 Definition put_side_ok (s : pystr) : bool :=
@@ -423,15 +634,18 @@ Proof.
   destruct (sanitize (canon_values [] x)) as [y|] eqn:Hs; [|discriminate]. injection Hp as <-.
   apply andb_prop in Hside. destruct Hside as [Hside Ho]. apply andb_prop in Hside. destruct Hside as [Hm Hd].
   destruct (put_stages_commute x y Hm Hd Hs) as [Hv [Hc Hn]].
-  set (z := canon_node y) in *. exists z.
-  unfold out_okb in Ho. repeat (apply andb_prop in Ho; let H' := fresh "Q" in destruct Ho as [Ho H']).
+  set (z := canon_node y) in *. exists (sort_node z).
+  unfold out_okb in Ho. cbv zeta in Ho. repeat (apply andb_prop in Ho; let H' := fresh "Q" in destruct Ho as [Ho H']).
+  assert (Ep : print_node [] (sort_node z) = print_node [] z) by (apply print_node_sort; assumption).
+  rewrite <- Ep.
   split; [reflexivity|]. split; [|split; [|split]].
   - constructor.
-    + destruct z as [l|n ch]; [discriminate|]. exists n, ch. split; [reflexivity|]. apply wf_nodeb_sound. assumption.
+    + destruct z as [l|n ch]; [discriminate|]. cbn [sort_node] in *. eexists _, _. split; [reflexivity|].
+      apply wf_nodeb_sound. assumption.
     + rewrite forallb_forall in *. rewrite Forall_forall. intros l Hl. apply wf_clb_sound. auto.
-    + exact Hv.
-    + exact Hc.
-    + exact Hn.
+    + rewrite canon_values_sort by assumption. rewrite Hv. reflexivity.
+    + apply sanitize_sort_fixed; assumption.
+    + rewrite canon_node_sort. rewrite Hn. reflexivity.
     + apply folds_normallyb_sound. assumption.
   - apply eqs_eq. assumption.
   - rewrite forallb_forall in *. rewrite Forall_forall. intros l Hl. apply negb_true_iff. auto.
@@ -454,11 +668,12 @@ Module ComposeExamples.
   Import Coq.Strings.String.
   Definition mk (ls : list string) : pystr := List.concat (map (fun l => str l ++ [CR; LF]) ls).
   (* an upload on which every stage does something: properties out of order, zero DURATION next to DTEND, EXDATE of the
-     wrong value type, a TEXT value to escape, a quoted parameter, a nested VALARM *)
+     wrong value type (the clean-up appends VALUE=DATE after X-A), a TEXT value to escape, parameters not in sorted order,
+     a quoted parameter, a nested VALARM *)
   Definition busy : pystr := mk
     ["BEGIN:VCALENDAR"; "PRODID:-//x//EN"; "VERSION:2.0"; "BEGIN:VEVENT"; "SUMMARY:a,b;c"; "DTSTART;VALUE=DATE:20200102";
-     "UID:u1"; "DTSTAMP:20200101T000000Z"; "EXDATE:20200103T100000Z"; "DTEND;VALUE=DATE:20200103"; "DURATION:PT0S";
-     "CATEGORIES:a,b"; "ATTENDEE;CN=""Doe, J"";ROLE=CHAIR:mailto:x@y"; "BEGIN:VALARM"; "TRIGGER:-PT5M"; "ACTION:DISPLAY";
+     "UID:u1"; "DTSTAMP:20200101T000000Z"; "EXDATE;X-A=1:20200103T100000Z"; "DTEND;VALUE=DATE:20200103"; "DURATION:PT0S";
+     "CATEGORIES:a,b"; "ATTENDEE;ROLE=CHAIR;CN=""Doe, J"":mailto:x@y"; "BEGIN:VALARM"; "TRIGGER:-PT5M"; "ACTION:DISPLAY";
      "END:VALARM"; "END:VEVENT"; "END:VCALENDAR"]%string.
   (* CATEGORIES ending in empty elements: vobject drops one trailing empty element per parse *)
   Definition trailing : pystr := mk
